@@ -367,7 +367,8 @@ class Recognizer(IRecognizer):
         if len(recognized_subclasses) == 0:
             message = 'Failed to recognize {}'.format(
                     type_to_desc(expected_type))
-            if top:
+            if top or len(causes) == 0:
+                # with no causes to point at, this is where the problem is
                 message += '\n{}'.format(indent(str(node.start_mark), '  '))
             return set(), (message, causes)
 
